@@ -865,6 +865,14 @@ def extra_ops(rng, tier):
             rand_el(rng, odl.ProductSpace(odl.rn(2), odl.rn(3, weighting=2.0), weighting=[2.0, 3.0])))
         yield 'MultiplyOperator-pspace', 'pspace-array', odl.MultiplyOperator(
             rand_el(rng, odl.ProductSpace(odl.rn(2), odl.rn(3, weighting=2.0), weighting=[2.0, 3.0])))
+        # derivatives of the complex modulus: real-linear C^n -> R^n with a hand-written adjoint
+        for kind in ('unweighted', 'const', 'array', 'discr', 'discr_bdry'):
+            n = rng.randint(2, 3)
+            csp = space_pool(rng, n, True)[kind]()
+            x0 = csp.element([rng.choice([3 + 4j, -4 + 3j, 5 - 12j, 8 + 6j]) for _ in range(n)])
+            yield 'ComplexModulus.derivative', 'complex-' + kind, odl.ComplexModulus(csp).derivative(x0)
+            yield 'ComplexModulusSquared.derivative', 'complex-' + kind, odl.ComplexModulusSquared(csp).derivative(x0)
+            yield 'ComplexModulus.derivative.adjoint', 'complex-' + kind, odl.ComplexModulus(csp).derivative(x0).adjoint
         try:
             from odl.trafos import DiscreteFourierTransform
             yield 'DiscreteFourierTransform', 'complex-unweighted', DiscreteFourierTransform(odl.cn(rng.randint(2, 5)))
